@@ -94,9 +94,15 @@ func BeginBlocker(ctx sdk.Context, k keeper.Keeper) {
 }
 
 func GetRewardAge(pool types.Pool) uint {
+	// TOTAL_REWARD is an amount of the chain's reward denomination, whatever that is called
 	totalReward, _ := sdk.ParseCoinNormalized(TOTAL_REWARD)
-	remain := totalReward.Sub(pool.TotalReward)
-	t, _ := new(big.Float).SetInt(totalReward.Amount.Quo(remain.Amount).BigInt()).Float64()
+	if pool.TotalReward.Amount.GTE(totalReward.Amount) {
+		// everything has been minted (or a block reward above the cap overshot it):
+		// an age that shifts every block reward to zero
+		return 256
+	}
+	remain := totalReward.Amount.Sub(pool.TotalReward.Amount)
+	t, _ := new(big.Float).SetInt(totalReward.Amount.Quo(remain).BigInt()).Float64()
 	return uint(math.Log2(t))
 }
 
